@@ -1,5 +1,7 @@
 import RainModel.Model.Registry
 import RainModel.Lemmas.RegistryRestart
+import RainModel.Model.ResumeCodec
+import RainModel.Lemmas.ResumeCodec
 /-!
 C14 — session registry and resume data consistent across add/remove/restart.
 Property theorems only; the invariant and its preservation are in `Lemmas/Registry*.lean`.
@@ -136,5 +138,69 @@ torrent's record. -/
 theorem compact_unfixed_counterexample :
     let s := run (init 10 12) [.add mA ⟨some "x", false, false, false, false⟩ 10 "" {}]
     (s.reg.map fun t => compactRecUnfixed false t) ≠ s.db.map (·.2) := by decide
+
+/-! ### Resume record codec -/
+
+section Codec
+open Rain.ResumeCodec
+
+/-- **resume_roundtrip** (proved part). For every record whose numbers fit the Go types and whose
+three JSON-encoded string lists decode to themselves (`JsonOk`: a decidable condition on the record;
+it holds for the example below and fails exactly as in the counterexample), `Read(Write(s))` returns
+`s` field by field (the version read is the one stored: `LatestVersion` when the spec says 0) —
+including the sub-second part of `AddedAt`, after the `fix:` commit. -/
+theorem resume_roundtrip_partial (s : Spec) (hr : InRange s) (hj : JsonOk s) :
+    read (write s) = some (stored s) :=
+  read_write s hr hj
+
+/-- The oracle the check evaluates (`diffFields`) reports no field exactly when the two records are equal. -/
+theorem diffFields_nil_iff (w r : Spec) : diffFields w r = [] ↔ w = r := by
+  constructor
+  · intro h
+    unfold diffFields at h
+    simp only [List.append_eq_nil_iff] at h
+    obtain ⟨⟨⟨⟨⟨⟨⟨⟨⟨⟨⟨⟨⟨⟨⟨⟨⟨⟨h1, h2⟩, h3⟩, h4⟩, h5⟩, h6⟩, h7⟩, h8⟩, h9⟩, h10⟩, h11⟩, h12⟩, h13⟩, h14⟩, h15⟩, h16⟩, h17⟩, h18⟩, h19⟩ := h
+    cases w; cases r
+    simp only [Spec.mk.injEq]
+    simp only [ite_eq_left_iff, reduceCtorEq, imp_false, Classical.not_not] at *
+    exact ⟨h1, h2, h3, h4, h5, h6, h7, h8, h9, h10, h11, h12, h13, h14, h15, h16, h17, h18, h19⟩
+  · rintro rfl
+    unfold diffFields
+    simp
+
+/-- The full-strength statement: every in-range record reads back equal. -/
+def resume_roundtrip_full : Prop := ∀ s : Spec, InRange s → read (write s) = some (stored s)
+
+private def base : Spec :=
+  { infoHash := List.replicate 20 7, port := 6881, name := [110], trackers := [], urlList := [], fixedPeers := [],
+    info := [100, 101], bitfield := [], addedAt := ⟨1790000000, 500000000⟩, bytesDownloaded := 1, bytesUploaded := 2,
+    bytesWasted := 0, seededFor := 1500000000, started := true, stopAfterDownload := false, stopAfterMetadata := false,
+    completeCmdRun := false, sequential := true, version := 0 }
+
+/-- **finding F06 (known).** A tracker URL that is not valid UTF-8 (`http://a/\xff`, as a .torrent
+may carry it) is stored with the byte replaced by U+FFFD and does not read back equal; so the
+full-strength statement is false. -/
+theorem resume_roundtrip_counterexample : ¬ resume_roundtrip_full := by
+  intro h
+  have := h { base with trackers := [[[104, 116, 116, 112, 58, 47, 47, 97, 47, 255]]] }
+    ⟨by decide, by decide, by decide, by decide, by decide, by decide, by decide⟩
+  revert this
+  decide
+
+/-- **finding F04 (fixed).** With the pre-fix time format (whole seconds) an `AddedAt` with a
+sub-second part does not read back equal. -/
+theorem addedAt_unfixed_counterexample : read (writeUnfixed base) ≠ some (stored base) := by decide
+
+/-- Non-vacuity: a record with tiers, JSON specials, multi-byte UTF-8 and a sub-second `AddedAt`
+satisfies the hypotheses and reads back equal. -/
+private def rich : Spec :=
+  { base with trackers := [[[104, 116, 116, 112, 58, 47, 47, 34, 92, 60, 10, 1], [195, 169]], [], [[]]],
+              urlList := [[226, 128, 168], [240, 159, 152, 128]], fixedPeers := [[49, 46, 50, 58, 51]],
+              addedAt := ⟨-1, 120⟩, version := 2 }
+example : InRange rich ∧ JsonOk rich :=
+  ⟨⟨by decide, by decide, by decide, by decide, by decide, by decide, by decide⟩, by decide⟩
+example : read (write rich) = some rich := by decide
+
+end Codec
 
 end Rain.Props.C14
